@@ -413,7 +413,14 @@ def extract_fn(unit: str, file: str, item: str, mode: str, contracts, canary: bo
                     z += 1
                 new_name = 'vp_%s1' % name
                 edits.append((toks[q].start, toks[q].end, new_name, rw('R21')))
+                # closures that re-bind the name as a parameter shadow it themselves: leave them alone
+                skip = []
+                for cl0 in find_closures(toks, e, z):
+                    if any(toks[w].kind == 'ident' and toks[w].text == name for w in range(cl0.bar_tok, cl0.params_end_tok + 1)):
+                        skip.append((cl0.bar_tok, cl0.body_end_tok))
                 for u in range(e, z):
+                    if any(a0 <= u <= b0 for (a0, b0) in skip):
+                        continue
                     if toks[u].kind == 'ident' and toks[u].text == name and toks[u - 1].text != '.':
                         # struct-field shorthand `Foo { mode }` would need `mode: vp_mode1`; not present in this codebase
                         edits.append((toks[u].start, toks[u].end, new_name, rw('R21')))
